@@ -23,7 +23,8 @@ def ada_case(c):
         # gradients with chosen norms: sample i has gradient norm norms[i] (input = norm * e_1, loss = output)
         norms = c['norms'][st]
         X = torch.zeros(len(norms), 3)
-        X[:, 0] = torch.tensor(norms)
+        if norms:
+            X[:, 0] = torch.tensor(norms)
         rec = []
         orig = torch.normal
 
